@@ -711,6 +711,7 @@ type world struct {
 	lossy       bool
 	// model-side counts of direct operations on the real backend (C18)
 	extDeleted, extExpired, prepWrites, prefailWrites int
+	extExpiredSlack                                   int // entries already expired when an external ExpireAll ran
 }
 
 func newWorld(c *Case, cfg foCfg) *world {
@@ -1162,8 +1163,34 @@ func (w *world) runSchedule(gets []*getSpec, o ctlOpts) bool {
 				c.Tracef("[%d] external Delete(%s) = %v", s.step, keyName(k), err)
 				c.Class("external-delete")
 			} else {
-				w.extExpired += w.be.Len()
+				// entries touched by ExpireAll count as expired: fresh / never-expiring ones always, already
+				// expired ones iff they carry the ExpireAll instant afterwards
+				nowNs := time.Now().UnixNano()
+				before := map[string]int64{}
+				_, _ = w.be.Walk(func(k []byte, _ interface{}, exp time.Time) error {
+					before[string(k)] = exp.UnixNano()
+					if exp.Equal(time.Unix(0, 0)) {
+						before[string(k)] = 0
+					}
+
+					return nil
+				})
 				w.be.ExpireAll(bg)
+				_, _ = w.be.Walk(func(k []byte, _ interface{}, exp time.Time) error {
+					switch old := before[string(k)]; {
+					case old != 0 && old < nowNs:
+						if exp.UnixNano() == nowNs {
+							w.extExpired++
+						}
+					case old == nowNs:
+						w.extExpired++
+						w.extExpiredSlack++
+					default:
+						w.extExpired++
+					}
+
+					return nil
+				})
 				c.Tracef("[%d] external ExpireAll", s.step)
 				c.Class("external-expireall")
 			}
